@@ -239,27 +239,51 @@ def first_use(stmts, v):
     return None
 
 
+def _scoped_walk(node, hidden=frozenset()):
+    """ast.walk that respects comprehension scopes: a name bound by a comprehension's `for` is a variable of that comprehension,
+    not of the function (only the first iterable is evaluated outside)."""
+    if isinstance(node, ast.Name) and node.id in hidden:
+        return
+    yield node
+    if isinstance(node, (ast.ListComp, ast.SetComp, ast.GeneratorExp, ast.DictComp)):
+        bound = set()
+        for g in node.generators:
+            bound |= {n.id for n in ast.walk(g.target) if isinstance(n, ast.Name)}
+        inner = frozenset(hidden | bound)
+        yield from _scoped_walk(node.generators[0].iter, hidden)
+        for i, g in enumerate(node.generators):
+            if i:
+                yield from _scoped_walk(g.iter, inner)
+            for c in g.ifs:
+                yield from _scoped_walk(c, inner)
+        for part in ([node.key, node.value] if isinstance(node, ast.DictComp) else [node.elt]):
+            yield from _scoped_walk(part, inner)
+        return
+    for ch in ast.iter_child_nodes(node):
+        yield from _scoped_walk(ch, hidden)
+
+
 def _ordered(s):
     """Nodes of a statement in evaluation-ish order: for assignments value before targets."""
     if isinstance(s, ast.Assign):
-        yield from ast.walk(s.value)
+        yield from _scoped_walk(s.value)
         for t in s.targets:
-            yield from ast.walk(t)
+            yield from _scoped_walk(t)
         return
     if isinstance(s, ast.For):
-        yield from ast.walk(s.iter)
-        yield from ast.walk(s.target)
+        yield from _scoped_walk(s.iter)
+        yield from _scoped_walk(s.target)
         for b in s.body + s.orelse:
             yield from _ordered(b)
         return
     if isinstance(s, (ast.If, ast.While)):
-        yield from ast.walk(s.test)
+        yield from _scoped_walk(s.test)
         for b in s.body + s.orelse:
             yield from _ordered(b)
         return
     if isinstance(s, (ast.FunctionDef, ast.ClassDef, ast.Lambda)):
         return
-    yield from ast.walk(s)
+    yield from _scoped_walk(s)
 
 
 # --------------------------------------------------------------------------- R5
